@@ -36,7 +36,7 @@ AXIOMS_OK = []
 RUN_MODULE = "Run.C16run Spec.TraceSpec Exec.TraceModel Exec.RuntimeMachine Exec.TraceDeferred Exec.TraceLift Exec.TraceRequest Exec.TraceListModel"
 AGREE = "agree_C16"
 CASE_TYPE = "case_C16"
-SHARD = 40
+SHARD = 45
 LEVEL_NOTE = ("Theorems are about the Gallina model Exec/TraceModel.v of process_graphql_query's hook "
               "sequencing, MultiInstrumentation, apply_middlewares + the resolver cache and the two "
               "sequential resolve_field variants, against Spec/TraceSpec.v; C16_interleave shows that every "
@@ -142,6 +142,67 @@ class RecCollecting(Rec):
 class RecNever(Rec):
     def __bool__(self):
         return False
+
+
+import dataclasses
+
+
+@dataclasses.dataclass(eq=True, unsafe_hash=True)
+class RecEq(Rec):
+    """a recorder that is a value object: equality and hash by configuration only; two instances with the
+    same configuration are EQUAL but distinct objects, each reporting under its own stack position"""
+    name: str = "recorder"
+    i: int = dataclasses.field(default=0, compare=False)
+
+
+class RecShared(Instrumentation):
+    """ONE recorder object listed at several positions of the stack: it is notified once per listing.
+    Events are attributed to positions by the order of the calls within a bracket: start hooks reach the
+    listings first to last, end hooks last to first."""
+    def __init__(self, positions):
+        self.positions = list(positions)
+        self.seen = {}
+
+    def _pos(self, key, start):
+        j = self.seen.get(key, 0)
+        self.seen[key] = j + 1
+        order = self.positions if start else self.positions[::-1]
+        return order[j % len(order)]
+
+    def on_query_start(self):
+        _Run.ev.append(["Q+", self._pos("Q+", True)])
+
+    def on_query_end(self):
+        _Run.ev.append(["Q-", self._pos("Q-", False)])
+
+    def on_parsing_start(self):
+        _Run.ev.append(["P+", self._pos("P+", True)])
+
+    def on_parsing_end(self):
+        _Run.ev.append(["P-", self._pos("P-", False)])
+
+    def on_validation_start(self):
+        _Run.ev.append(["V+", self._pos("V+", True)])
+
+    def on_validation_end(self):
+        _Run.ev.append(["V-", self._pos("V-", False)])
+
+    def on_execution_start(self):
+        _Run.ev.append(["E+", self._pos("E+", True)])
+
+    def on_execution_end(self):
+        _Run.ev.append(["E-", self._pos("E-", False)])
+
+    def on_field_start(self, root, ctx, info):
+        p = list(info.path)
+        _Run.ev.append(["F+", self._pos("F+" + _pkey(p), True), p])
+
+    def on_field_end(self, root, ctx, info):
+        p = list(info.path)
+        _Run.ev.append(["F-", self._pos("F-" + _pkey(p), False), p])
+
+
+STACKINGS_EQ = ("eq", "eq_sep", "same", "same_mixed", "deep")
 
 
 def _make_rec(i, kind):
@@ -398,6 +459,20 @@ def _instrumentation(case):
         if k == 1:
             return MultiInstrumentation(MultiInstrumentation(recs[0])), None
         return MultiInstrumentation(MultiInstrumentation(*recs[:-1]), MultiInstrumentation(), recs[-1]), None
+    # the stack AS GIVEN has k entries; entry j reports as position j
+    if st == "eq":            # k distinct recorder objects that all compare equal
+        return MultiInstrumentation(*[RecEq(i=i) for i in range(k)]), None
+    if st == "eq_sep":        # two equal-but-distinct recorders separated by other entries
+        return MultiInstrumentation(*([RecEq(i=0)] + [Rec(i) for i in range(1, k - 1)] + [RecEq(i=k - 1)])), None
+    if st == "same":          # the SAME object listed k times
+        sh = RecShared(range(k))
+        return MultiInstrumentation(*([sh] * k)), None
+    if st == "same_mixed":    # the same object first and last, other recorders in between
+        sh = RecShared([0, k - 1])
+        return MultiInstrumentation(*([sh] + [Rec(i) for i in range(1, k - 1)] + [sh])), None
+    if st == "deep":          # MultiInstrumentation inside MultiInstrumentation inside MultiInstrumentation
+        inner = MultiInstrumentation(MultiInstrumentation(*recs[:1]), MultiInstrumentation(*recs[1:2]))
+        return MultiInstrumentation(MultiInstrumentation(inner), *recs[2:]), None
     raise ValueError(st)
 
 
@@ -854,6 +929,13 @@ def corpus():
             out.append(_base(config, sel=[[None, "i", None, [[None, "a", None, []]]], [None, "a", None, []]],
                              world={"i": "cerr"}, n=1, k=2, stacking="tracer",
                              deferred=["Query.i"] if config in DEFERRED_CFG else []))
+        # seeded C16-h: the stack as given -- equal-but-distinct recorder objects, the same object listed
+        # several times, MultiInstrumentation nested three deep -- every entry is notified, in order / reverse
+        for st, kk in (("eq", 2), ("eq", 3), ("eq_sep", 3), ("same", 2), ("same", 3), ("same_mixed", 3), ("deep", 3)):
+            out.append(_base(config, sel=SEL_NESTED, k=kk, stacking=st, n=1, world={"o/a": "err"},
+                             deferred=["Query.o"] if config in DEFERRED_CFG else []))
+        out.append(_base(config, kind="syntax", doc="{ a ", k=2, stacking="eq"))
+        out.append(_base(config, kind="validation", doc="{ zz }", k=3, stacking="same", as_text=False))
         # seeded C16-g: callable middlewares whose truth value is False when the executor is built must not
         # be dropped; fixes/C16-03: a falsy Instrumentation passed alone must not be replaced by the no-op one
         defr = ["Query.o"] if config in DEFERRED_CFG else []
@@ -959,7 +1041,8 @@ def _gen_exec(rng, config, max_deferred, max_orders):
     if not sel:
         sel = [[None, "a", None, []]]
     k = rng.choice([1, 1, 2, 2, 3])
-    stacking = rng.choice(["plain", "multi", "tracer"] if k == 1 else ["multi", "multi", "tracer", "nested"])
+    stacking = rng.choice(["plain", "multi", "tracer"] if k == 1 else
+                          ["multi", "multi", "tracer", "nested"] + list(STACKINGS_EQ))
     case = _base(config, op=op, sel=sel, k=k, stacking=stacking, n=rng.choice([0, 1, 1, 2, 3]),
                  as_text=rng.random() < 0.7, mw_async=rng.random() < 0.5, max_orders=max_orders,
                  seed=rng.randrange(1 << 30))
@@ -1035,19 +1118,19 @@ def generate(rng, tier):
         for config in CONFIGS:
             for as_text in ((True,) if kind == "syntax" else (True, False)):
                 k = rng.choice([1, 2, 3])
-                st = rng.choice(["plain", "tracer"] if k == 1 else ["multi", "tracer", "nested"])
+                st = rng.choice(["plain", "tracer"] if k == 1 else ["multi", "tracer", "nested"] + list(STACKINGS_EQ))
                 cases.append(_base(config, kind=kind, as_text=as_text, k=k, stacking=st,
                                    n=rng.choice([0, 2]), mw_async=rng.random() < 0.5,
                                    inst_kind=rng.choice([None, None, "len", "bool"]), **extra))
-    n_block = 120 if quick else 900
-    n_def = 55 if quick else 200
+    n_block = 75 if quick else 900
+    n_def = 40 if quick else 200
     for config in ("blocking", "generic"):
         for _ in range(n_block):
             cases.append(_gen_exec(rng, config, 0, 1))
     for config in DEFERRED_CFG:
         for _ in range(n_def):
-            cases.append(dict(_gen_exec(rng, config, rng.choice([2, 3, 4, 5]), 60 if quick else 120),
-                              samples=30 if quick else 200))
+            cases.append(dict(_gen_exec(rng, config, rng.choice([2, 3, 4, 5]), 40 if quick else 120),
+                              samples=20 if quick else 200))
         # all orders of a few larger operations
         for _ in range(3 if quick else 6):
             cases.append(dict(_gen_exec(rng, config, 6, 120 if quick else 720), samples=30 if quick else 200))
@@ -1158,7 +1241,7 @@ def extra_evidence(cases, obss):
     return {"machine_model_agreement": _machine_replay(cases, obss), "distribution": {
         "cases_by_config_and_kind": by, "outcome_classes": outcomes, "completion_orders": orders,
         "as_ast": sum(1 for c in cases if not c["as_text"]),
-        "stacking": {s: sum(1 for c in cases if c["stacking"] == s) for s in ("plain", "multi", "tracer", "nested")},
+        "stacking": {s: sum(1 for c in cases if c["stacking"] == s) for s in ("plain", "multi", "tracer", "nested") + STACKINGS_EQ},
         "middlewares": {str(n): sum(1 for c in cases if c["n"] == n) for n in range(4)},
         "awaiting_middlewares": sum(1 for c in cases if c["config"] == "asyncio" and c.get("mw_async") and c["n"]),
         "resolver_errors": sum(1 for c in cases if "err" in c.get("world", {}).values()),
